@@ -1,8 +1,9 @@
 import LocustModel.Store.Proto
 /-
   Driver for C08.  Input: a history line (see `LocustModel/Store/Proto.lean`).
-  Output:  <model dump> TAB <spec dump> [TAB compaction-null-loss]
-    (third field: classifier of the open C07 finding — a compaction merged rows containing a NULL cell)
+  Output:  <model dump> TAB <spec dump>
+    (no known-finding field: the compaction defects of C07 that once made NULL cells differ after a compaction were
+     repaired in /repo 9061c98 / 517cc41; a fixed entry suppresses nothing)
     model dump = what the machine model (mirror of ingest_efficient / wal_flush / recover) shows after the last step;
     spec dump  = the acknowledged rows, columns and tables computed from the history alone.
 -/
@@ -12,7 +13,7 @@ open LM.Proto LM.Store.Drv
 def step (line : String) : String :=
   match runLine line with
   | none => "bad-op\tbad-op"
-  | some (s, _) => dumpModel s ++ "\t" ++ dumpSpec s ++ (if s.nullCompacted then "\tcompaction-null-loss" else "")
+  | some (s, _) => dumpModel s ++ "\t" ++ dumpSpec s
 
 end LM.DrvC08
 
